@@ -251,6 +251,33 @@ def link_kinds_registered_late(M, rec):
             rec.violation(f"{PROP}:add_path: a path through links of a late-registered kind did not build the described edges", {"via": via})
 
 
+def long_paths(M, rec):
+    """Scripted in every run: one path of several hundred links (a generator over a road table): every link of it is laid, the
+    destination sits at its last node."""
+    for n_links, form in ((513, "generator"), (700, "tuple"), (1100, "generator")):
+        nodes = [M.Node() for _ in range(n_links + 1)]
+        links = [M.Link(1, 2, 1.0, 180.0, 33.0, 100.0, 1.8) for _ in range(n_links)]
+        pts = [nodes[0]]
+        for i in range(n_links):
+            pts += [links[i], nodes[i + 1]]
+        dest = M.Destination()
+        net = M.Network()
+        rec.count("path_calls")
+        rec.count("paths_of_several_hundred_links")
+        try:
+            net.add_path((p_ for p_ in pts) if form == "generator" else tuple(pts), origin=M.MainstreamOrigin(), destination=dest)
+        except Exception as e:
+            rec.violation(f"{PROP}:add_path: well-formed path rejected with {type(e).__name__} (a path of several hundred links)", {"links": n_links})
+            continue
+        G_ = X.raw_graph(net)
+        n_edges = sum(len(nb_) for nb_ in G_._succ.values())
+        at_last = G_._node.get(nodes[-1], {}).get("destination") is dest if nodes[-1] in G_._node else False
+        rec.count("wellformed_paths_checked")
+        if len(G_._node) != n_links + 1 or n_edges != n_links or not at_last:
+            rec.violation(f"{PROP}:add_path: a path of several hundred links was not laid completely (nodes / edges / the destination at its last node)",
+                          {"links": n_links, "nodes_in_graph": len(G_._node), "edges_in_graph": n_edges, "destination_at_the_last_node": bool(at_last)})
+
+
 def histories(M, rec, rng, reps):
     for _ in range(reps):
         N = [M.Node() for _ in range(rng.randint(2, 5))]
@@ -476,6 +503,7 @@ def run(M, rec, tier, seed, k, n):
     value_equal_replacements(M, rec)
     replacements_with_warnings_as_errors(M, rec)
     link_kinds_registered_late(M, rec)
+    long_paths(M, rec)
     path_shapes(M, rec, rng, maxlen, k, n)
     histories(M, rec, rng, 600 if tier == "quick" else 12000)
     if k == 0:
